@@ -107,8 +107,16 @@ def cases(draw, ctx):
     if junk is not None:
         sb = junk
         b = None
-    lines = ["cfg seed=1 native=1 mode=1",
-             "env A %s=%s" % (name, sa.replace("\t", "\\t")),
+    lines = ["cfg seed=1 native=1 mode=1"]
+    # a base environment shared by the three probes: the documented range of one setting
+    # can depend on another one (a stack page holds at least four stacks, pages are
+    # multiples of the system page, ...), and the relations below hold under any base
+    for _ in range(draw(st.sampled_from([0, 0, 1, 1, 2]))):
+        oname, _b = draw(st.sampled_from([v for v in VARS if v[0] != name]))
+        oval = draw(st.sampled_from([0, 1, 64, 4096, 65536, 1 << 21, 1 << 24, 1 << 26, 3000001]))
+        if not any(l.startswith("env %s=" % oname) for l in lines):
+            lines.append("env %s=%d" % (oname, oval))
+    lines += ["env A %s=%s" % (name, sa.replace("\t", "\\t")),
              "env B %s=%s" % (name, sb.replace("\t", "\\t")),
              "note var=%s a=%d b=%s" % (name, a, "junk" if b is None else str(b))]
     return "\n".join(lines) + "\n"
